@@ -100,7 +100,7 @@ pub fn build(id: &str, tier: Tier) -> Option<Check> {
                 bfs(ulc("c01-long-history", |h| { h.arm.c01 = true; h.seeds = vec!["ten_batches", "zero_batch"]; h.sym = false; h.amounts_abs = vec![3]; h.budget = 1; h.slash_vals = vec!["val1"]; }), tier.pick(4, 6), secs),
                 bfs(ulc("c01-1e15", |h| { h.arm.c01 = true; h.arm.c06 = true; h.scale = 1_000_000_000_000_000; h.sym = false; h.amounts_abs = vec![100, 37]; h.seeds = vec!["two_inflight", "slashed"]; h.slash_vals = vec!["val1", "val2"]; h.budget = tier.pick(2, 3); h.with_rogue = true; }), tier.pick(4, 6), secs),
                 bfs(ulc("c01-pegfee", |h| { h.arm.c01 = true; h.peg_fee = "0.01"; h.seeds = vec!["slashed"]; h.budget = 1; }), tier.pick(5, 7), secs),
-                bfs(ulc("c01-dust-stsei", |h| { h.arm.c01 = true; h.users = vec![ALICE, BOB, CAROL]; h.tokens = vec![STSEI]; h.sym = false; h.amounts_abs = vec![1, 100]; h.seeds = if q { vec!["dustgroup"] } else { vec!["dust", "dustgroup"] }; h.with_rogue = false; h.budget = 1; }), tier.pick(6, 10), secs),
+                bfs(ulc("c01-dust-stsei", |h| { h.arm.c01 = true; h.users = vec![ALICE, BOB, CAROL]; h.tokens = vec![STSEI]; h.sym = false; h.amounts_abs = vec![1, 100]; h.seeds = if q { vec!["dustgroup"] } else { vec!["dust", "dustgroup"] }; h.with_rogue = false; h.budget = 1; }), tier.pick(6, 9), secs),
                 bfs(ulc("c01-dust-bsei", |h| { h.arm.c01 = true; h.users = vec![ALICE, BOB, CAROL]; h.tokens = vec![BSEI]; h.sym = false; h.amounts_abs = vec![1, 100]; h.seeds = vec!["dustgroup_b"]; h.with_rogue = false; h.budget = 1; }), tier.pick(6, 8), secs),
             ],
             rule: "every sequence of <= D unbond/withdraw/time-jump actions (plus bond/convert in the thorough tier) with <= F slashing-of-unbonding / bonded-slash / rogue-transfer deviations, for 2-3 users and both tokens; a narrow one-token 'dust group' scenario (amounts 1 and 100 at rate 0.9) goes deeper to put several batches, including zero-valued ones, into one release group; in every distinct state all users with matured claims withdraw on clones in every order; non-trivial = a release, a paid withdraw, or a probe state with matured claims".into(),
